@@ -59,6 +59,7 @@ type Case struct {
 	Adv  []AdvMsg `json:"adv"`
 	// pex
 	Steps []Step `json:"steps"`
+	Mult  int    `json:"mult"` // each abstract address stands for this many peers (same host, consecutive ports); 0 = 1
 }
 
 type Viol struct {
@@ -232,18 +233,37 @@ var addrs = map[string]netip.AddrPort{
 	"c": netip.MustParseAddrPort("[2001:db8::3]:1003"),
 }
 
+// names maps concrete peers to the abstract addresses of the specification
+// (by host: with Mult > 1 an abstract address is a group of peers), without
+// repetitions.
 func names(ps []pex.Peer) []string {
+	seen := map[string]bool{}
 	r := []string{}
 	for _, p := range ps {
 		n := "?" + p.Addr.String()
 		for k, a := range addrs {
-			if a == p.Addr {
+			if a.Addr() == p.Addr.Addr() {
 				n = k
 			}
 		}
-		r = append(r, n)
+		if !seen[n] {
+			seen[n] = true
+			r = append(r, n)
+		}
 	}
 	sort.Strings(r)
+	return r
+}
+
+func group(name string, mult int, flags byte) []pex.Peer {
+	if mult < 1 {
+		mult = 1
+	}
+	var r []pex.Peer
+	for k := 0; k < mult; k++ {
+		a := addrs[name]
+		r = append(r, pex.Peer{Addr: netip.AddrPortFrom(a.Addr(), a.Port()+uint16(k)), Flags: flags})
+	}
 	return r
 }
 
@@ -258,7 +278,7 @@ func setEq(a, b []string) bool {
 func runPex(c *Case, out *Out) {
 	ps := &piece.Pieces{}
 	ps.MetadataComplete(16384, 16384*4)
-	writer := make(chan protocol.Message, 64)
+	writer := make(chan protocol.Message, 256)
 	p := peer.VerifNew(ps, []byte("info"), bitmap.New(4), netip.MustParseAddrPort("192.0.2.50:6881"),
 		protocol.HandshakeResult{Hash: hash.Hash(make([]byte, 20)), Id: hash.Hash(make([]byte, 20)), Extended: true},
 		make(chan peer.TorEvent, 64), writer)
@@ -268,18 +288,38 @@ func runPex(c *Case, out *Out) {
 	viol := func(step int, key, what string) {
 		out.Violations = append(out.Violations, Viol{"C11", key, fmt.Sprintf("%s (step %d of %v)", what, step, labels(c.Steps))})
 	}
+	toldC := map[string]bool{} // the remote's view, peer by peer
 	apply := func(step int, m protocol.ExtendedPex) {
-		for _, n := range names(m.Added) {
-			if told[n] {
+		if len(m.Added) > 50 || len(m.Dropped) > 50 {
+			viol(step, "pex-message-too-large", fmt.Sprintf("a peer-exchange message carries %d additions and %d departures", len(m.Added), len(m.Dropped)))
+		}
+		for _, q := range m.Added {
+			n := q.Addr.String()
+			if toldC[n] {
 				viol(step, "pex-announced-twice", "peer "+n+" is announced although the remote already has it")
 			}
-			told[n] = true
+			toldC[n] = true
 		}
-		for _, n := range names(m.Dropped) {
-			if !told[n] {
+		for _, q := range m.Dropped {
+			n := q.Addr.String()
+			if !toldC[n] {
 				viol(step, "pex-drop-unannounced", "peer "+n+" is dropped although it was never announced")
 			}
-			delete(told, n)
+			delete(toldC, n)
+		}
+		// the abstract view: an address is told when all the peers it stands for are
+		for name := range addrs {
+			all := true
+			for _, q := range group(name, c.Mult, 0) {
+				if !toldC[q.Addr.String()] {
+					all = false
+				}
+			}
+			if all {
+				told[name] = true
+			} else {
+				delete(told, name)
+			}
 		}
 	}
 	toldList := func() []string {
@@ -294,10 +334,10 @@ func runPex(c *Case, out *Out) {
 		switch st.A.A {
 		case "Add":
 			present[st.A.X] = true
-			peer.VerifHandleEvent(p, peer.PeerPex{Peers: []pex.Peer{{Addr: addrs[st.A.X], Flags: byte(st.A.F)}}, Add: true})
+			peer.VerifHandleEvent(p, peer.PeerPex{Peers: group(st.A.X, c.Mult, byte(st.A.F)), Add: true})
 		case "Del":
 			delete(present, st.A.X)
-			peer.VerifHandleEvent(p, peer.PeerPex{Peers: []pex.Peer{{Addr: addrs[st.A.X]}}, Add: false})
+			peer.VerifHandleEvent(p, peer.PeerPex{Peers: group(st.A.X, c.Mult, 0), Add: false})
 		case "Send":
 			if !st.A.Ok {
 				// make the write fail: a full writer channel is "congested"; sendPex
@@ -343,6 +383,18 @@ func runPex(c *Case, out *Out) {
 	var pres []string
 	for n := range present {
 		pres = append(pres, n)
+	}
+	nPresent := 0
+	for n := range present {
+		for _, q := range group(n, c.Mult, 0) {
+			nPresent++
+			if !toldC[q.Addr.String()] && len(out.Violations) == 0 {
+				viol(len(c.Steps), "pex-view-diverges", "after every pending delta was sent the remote has never been told of "+q.Addr.String()+", which is present")
+			}
+		}
+	}
+	if len(toldC) != nPresent && len(out.Violations) == 0 {
+		viol(len(c.Steps), "pex-view-diverges", fmt.Sprintf("after every pending delta was sent the remote believes in %d peers, %d are present (a departure was never reported)", len(toldC), nPresent))
 	}
 	if !setEq(toldList(), pres) && len(out.Violations) == 0 {
 		viol(len(c.Steps), "pex-view-diverges", fmt.Sprintf("after every pending delta was sent the remote believes %v, the peers present are %v", toldList(), names2(pres)))
